@@ -402,11 +402,76 @@ def _collect_tag_field_uses(fn, cons, union_path, guard_style=False):
                         cons.setdefault(t, set()).update(fs)
 
 
+def rule_e(R, ctx):
+    FFI = ctx.yffi
+    R.rule("C19.e", "R-PROV running insertion index: an exported wrapper that inserts in a loop at a running index (yarray_insert_range "
+                    "batches primitive cells) advances that index, after each insertion call, by the number of elements the call "
+                    "inserted: `len()` of the very vector passed to Array::insert_range, 1 after Array::insert — otherwise later "
+                    "cells of the same call land at other positions than the Rust API would put them")
+    n = 0
+    for p, fn in sorted(exported(FFI).items()):
+        if not fn.mir:
+            continue
+        cfg = fn.cfg()
+        for cs in fn.calls():
+            nm = F.strip_generics(cs.name)
+            m = re.search(r"::Array::(insert_range|insert)$", nm) or re.search(r"Array(<.*>)?>?::(insert_range|insert)$", nm)
+            if not m or not cfg.in_loop(cs.bb) or len(cs.args) < 4:
+                continue
+            kind = "insert_range" if nm.endswith("insert_range") else "insert"
+            J = mir_root(fn, cs.args[2])
+            if J[0] != "local" or len(fn.defs().get(J[1], [])) < 2:
+                continue  # not a running index
+            n += 1
+            site = "%s@%s" % (kind, fn.local_name(J[1]) or "_%d" % J[1])
+            # the advance: definitions of the index dominated by the insertion
+            adv = [d for d in fn.defs()[J[1]] if d[0] == "stmt" and d[1] != cs.bb and cfg.dominates(cs.bb, d[1])]
+            if len(adv) != 1:
+                R.ob("C19.e", fn, site, False, "%d assignment(s) to the running index after the insertion (expected one `index += n`)" % len(adv), cs.loc())
+                continue
+            sm = mir_sum(fn, {"c": J[1]}) if False else None
+            rv = adv[0][3]["rv"]
+            # j = (j + x).0  /  j = j + x
+            add = None
+            if "use" in rv and isinstance(rv["use"], dict):
+                add = mir_sum(fn, rv["use"])
+            elif rv.get("bin") in ("Add", "AddWithOverflow"):
+                add = (rv["a"], rv["b"])
+            ok = False
+            why = "the index is not advanced by a sum"
+            if add:
+                a, b = add
+                if mir_root(fn, a) != J:
+                    a, b = b, a
+                if mir_root(fn, a) == J:
+                    rb = mir_root(fn, b)
+                    if kind == "insert":
+                        ok = rb == ("const", 1)
+                        why = "index += %s after inserting one element" % (rb,)
+                    else:
+                        # b = Vec::len(&vec) as u32 with vec the argument of insert_range
+                        d = mir_def(fn, b)
+                        src = None
+                        if d and d[0] == "stmt" and "cast" in d[1]:
+                            d2 = mir_def(fn, d[1]["cast"])
+                            if d2 and d2[0] == "call" and re.search(r"Vec(<.*>)?::len$", d2[1].name) and d2[1].args:
+                                src = mir_root(fn, d2[1].args[0])
+                        elif d and d[0] == "call" and re.search(r"Vec(<.*>)?::len$", d[1].name) and d[1].args:
+                            src = mir_root(fn, d[1].args[0])
+                        vec = mir_root(fn, cs.args[3])
+                        ok = src is not None and src == vec
+                        why = "index += len(<the vector passed to insert_range>)" if ok else \
+                            "index is advanced by %s, which is not the length of the vector just inserted" % (sshow(FnView(fn).terms.operand(b, 8), 5),)
+            R.ob("C19.e", fn, site, ok, why, cs.loc())
+    R.floor("C19.e", "loop insertions at a running index in exported wrappers", n, 2)
+
+
 def check(ctx, R):
     holder = {}
     R.run("C19.a", lambda R, c: holder.setdefault("h", rule_a(R, c)), ctx)
     R.run("C19.b", rule_b, ctx)
     R.run("C19.c", rule_c, ctx)
+    R.run("C19.e", rule_e, ctx)
     if "h" in holder:
         R.run("C19.d", rule_d, ctx, holder["h"])
     return {}
